@@ -452,6 +452,8 @@ type BlockOpts struct {
 	CoinbaseKind Kind
 	ShortPay     int64 // pay this much less than subsidy+fees in the coinbase
 	Name         string
+	Detached bool  // do not insert the block into the tree
+	FixedTime int64 // exact timestamp (overrides TimeStep / family defaults)
 	// Finish, when set, may alter the assembled block before merkle/commitment/solve are (re)computed;
 	// it returns the label of the result.
 	Mutate func(b *Draft)
@@ -469,6 +471,9 @@ type Draft struct {
 	Subsidy int64
 	// SkipFix* let a mutation keep a deliberately wrong field.
 	SkipMerkle, SkipCommitment, SkipSolve bool
+	// Label / Rule of the result; a mutation may change them (initialised from BlockOpts).
+	Label refchain.Validity
+	Rule  string
 }
 
 // Wallet returns the generator's spendable coins after block b (creation order), with coin data.
@@ -597,6 +602,9 @@ func (g *Gen) Block(r *mon.Rand, parent *refchain.Block, o BlockOpts) *refchain.
 		}
 	}
 	ts := g.NextTime(r, parent, &o)
+	if o.FixedTime != 0 {
+		ts = o.FixedTime
+	}
 	subsidy := refchain.Subsidy(height, g.P.SubsidyReductionInterval)
 	cb := wire.NewMsgTx(1)
 	sig := append(HeightPush(height), 0x08)
@@ -613,14 +621,14 @@ func (g *Gen) Block(r *mon.Rand, parent *refchain.Block, o BlockOpts) *refchain.
 		msg.Header.Version = o.Version
 	}
 	msg.Transactions = append([]*wire.MsgTx{cb}, txs...)
-	d := &Draft{G: g, Parent: parent, Height: height, Msg: msg, Fees: fees, Subsidy: subsidy}
+	d := &Draft{G: g, Parent: parent, Height: height, Msg: msg, Fees: fees, Subsidy: subsidy, Label: o.Label, Rule: o.Rule}
 	msg.Header.Bits = g.RequiredBits(parent, ts)
 	d.Finalize(false)
-	label, rule := o.Label, o.Rule
 	if o.Mutate != nil {
 		o.Mutate(d)
 		d.Finalize(true)
 	}
+	label, rule := d.Label, d.Rule
 	if g.ClockNow != 0 && label != refchain.InvalidEarly && msg.Header.Timestamp.Unix() > g.ClockNow+7200 {
 		label, rule = refchain.InvalidEarly, "hs:time-too-new"
 	}
@@ -629,7 +637,12 @@ func (g *Gen) Block(r *mon.Rand, parent *refchain.Block, o BlockOpts) *refchain.
 		g.names++
 		name = fmt.Sprintf("b%d", g.names)
 	}
-	nb := g.Tree.Add(name, msg, parent, label, rule)
+	var nb *refchain.Block
+	if o.Detached {
+		nb = g.Tree.Detached(name, msg, parent, label, rule)
+	} else {
+		nb = g.Tree.Add(name, msg, parent, label, rule)
+	}
 	// wallet after this block (only meaningful on valid chains)
 	e := &ext{}
 	if nb.ChainValid() {
@@ -692,4 +705,33 @@ func (d *Draft) Finalize(afterMutation bool) {
 	if !d.SkipSolve {
 		Solve(&msg.Header)
 	}
+}
+
+// Adopt inserts a block that was produced elsewhere (e.g. a solved block template) under parent, which must
+// be valid on that parent, and derives the generator's wallet after it.
+func (g *Gen) Adopt(name string, msg *wire.MsgBlock, parent *refchain.Block) *refchain.Block {
+	nb := g.Tree.Add(name, msg, parent, refchain.Valid, "")
+	e := &ext{}
+	spent := map[wire.OutPoint]bool{}
+	for _, tx := range msg.Transactions[1:] {
+		for _, ti := range tx.TxIn {
+			spent[ti.PreviousOutPoint] = true
+		}
+	}
+	for _, op := range parent.Ext.(*ext).wallet {
+		if !spent[op] {
+			e.wallet = append(e.wallet, op)
+		}
+	}
+	for ti, tx := range msg.Transactions {
+		h := tx.TxHash()
+		for i, to := range tx.TxOut {
+			op := wire.OutPoint{Hash: h, Index: uint32(i)}
+			if g.CanSpend(to.PkScript) && !spent[op] && !(ti == 0 && false) {
+				e.wallet = append(e.wallet, op)
+			}
+		}
+	}
+	nb.Ext = e
+	return nb
 }
